@@ -211,3 +211,55 @@ Proof.
   unfold CancelLiquidityStake_receive in H2. cbv zeta in H2.
   split_ifs H2; try discriminate; inversion H2; subst; auto.
 Qed.
+
+(* ------------------------------------------------------------------ the QSR deposit (pillar / sentinel registration)
+   DepositQsr adds the received amount to the sender's deposit and saves it; checkAndConsumeQsr (called by pillar.Register
+   and sentinel.Register) takes the required amount out of it — never more than is there — and deletes the emptied entry. *)
+Theorem deposit_qsr_adds q v g amt sv bl q' eff :
+  DepositQsr_receive q v g amt sv = Ok (bl, 0, q', eff) ->
+  bl = [] /\ v = 0 /\ q' = q + amt /\ eff = Some 1.
+Proof.
+  unfold DepositQsr_receive. cbv zeta. intros H.
+  split_ifs H; try discriminate; inversion H; subst; repeat split; try lia; try reflexivity.
+  all: try (apply Z.eqb_eq; assumption).
+  all: try (cbn in *; apply Z.eqb_eq; destruct (v =? 0); [reflexivity|discriminate]).
+Qed.
+
+Theorem deposit_qsr_refusal q v g amt sv bl e q' eff :
+  DepositQsr_receive q v g amt sv = Ok (bl, e, q', eff) -> e <> 0 -> bl = [] /\ q' = q /\ eff = None.
+Proof.
+  unfold DepositQsr_receive. cbv zeta. intros H He.
+  split_ifs H; try discriminate; inversion H; subst; try (exfalso; apply He; reflexivity); repeat split; reflexivity.
+Qed.
+
+Ltac zcmp_cases :=
+  unfold zcmp in *;
+  repeat match goal with
+         | E : context [?a <? ?b] |- _ => destruct (Z.ltb_spec a b); cbn in E
+         | E : context [?a =? ?b] |- _ => destruct (Z.eqb_spec a b); cbn in E
+         end.
+
+Theorem consume_qsr_success req q g d sv q' ed es :
+  checkAndConsumeQsr req q g d sv = Ok (0, q', ed, es) ->
+  req <= q /\ q' = q - req /\
+  ((q' = 0 /\ ed = Some 1 /\ es = None) \/ (q' <> 0 /\ ed = None /\ es = Some 1)).
+Proof.
+  unfold checkAndConsumeQsr, Err_constants_ErrNotEnoughDepositedQsr, Big0. cbv zeta. intros H.
+  split_ifs H; try discriminate; inversion H; subst; zcmp_cases; try discriminate.
+  all: repeat split; try lia; try (left; repeat split; lia); try (right; repeat split; lia).
+Qed.
+
+Theorem consume_qsr_refusal req q g d sv e q' ed es :
+  checkAndConsumeQsr req q g d sv = Ok (e, q', ed, es) -> e <> 0 -> q < req /\ q' = q /\ ed = None /\ es = None.
+Proof.
+  unfold checkAndConsumeQsr. cbv zeta. intros H He.
+  split_ifs H; try discriminate; inversion H; subst; try (exfalso; apply He; reflexivity); zcmp_cases; try discriminate.
+  all: repeat split; try lia; reflexivity.
+Qed.
+
+Example qsr_deposit_examples :
+  DepositQsr_receive 10 0 0 5 0 = Ok ([], 0, 15, Some 1) /\
+  checkAndConsumeQsr 15 15 0 0 0 = Ok (0, 0, Some 1, None) /\
+  checkAndConsumeQsr 10 15 0 0 0 = Ok (0, 5, None, Some 1) /\
+  checkAndConsumeQsr 16 15 0 0 0 = Ok (Err_constants_ErrNotEnoughDepositedQsr, 15, None, None).
+Proof. vm_compute. repeat split; reflexivity. Qed.
